@@ -1216,6 +1216,11 @@ class Client:
             if self.ignore_exc:
                 return {}
             raise
+        except BaseException:
+            # KeyboardInterrupt / gevent timeouts are never swallowed, but the
+            # connection must not keep an unread reply
+            self.close()
+            raise
 
     def _store_cmd(
         self,
@@ -1302,7 +1307,9 @@ class Client:
                 else:
                     raise MemcacheUnknownError(line[:32])
             return results
-        except Exception:
+        except BaseException:
+            # also on KeyboardInterrupt / gevent timeouts: an unread reply must
+            # not be left on a connection that stays in use
             self.close()
             raise
 
@@ -1346,7 +1353,9 @@ class Client:
                 results.append(line)
             return results
 
-        except Exception:
+        except BaseException:
+            # also on KeyboardInterrupt / gevent timeouts: an unread reply must
+            # not be left on a connection that stays in use
             self.close()
             raise
 
